@@ -1,5 +1,6 @@
 (** C09 — tasks are never forgotten, duplicated or wrongly adopted across crashes/faults. *)
 From Furiko Require Import Job.Core Job.Sync Job.World Proofs.JobP Proofs.SyncP Proofs.HistoryP.
+From Furiko Require Proofs.UniqueP.
 
 (** One creation attempt issues exactly one create for the request's deterministic name;
     an object already on that name is added to the Job's tasks only if this Job controls it
@@ -101,3 +102,26 @@ Example c09_history_nonvacuous :
   option_map (fun a => map tr_name (j_tasks a)) (api_job w1) = Some ["j-aaaaaa-0"] /\
   option_map (fun a => map tr_name (j_tasks a)) (api_job w2) = Some ["j-aaaaaa-0"; "j-aaaaaa-1"].
 Proof. vm_compute. split; reflexivity. Qed.
+
+
+(** never duplicated, over histories.  For every history of the one-Job world (as above) that
+    starts from a Job with distinct index hashes and a well-formed status, and whose foreign
+    Pods carry non-negative retry numbers: every version of the Job in the API lists each
+    task name at most once, and every listed task carries the name made of its own index hash
+    and retry number.  (Invariants: the same for the cached Job and the events on their way;
+    every Pod in the API, the cache and the pending events is named after its hash and retry;
+    the requests of a pass have fresh, pairwise distinct names.) *)
+Theorem c09_never_listed_twice :
+  forall cfg j0 now ops a,
+    NoDup (j_indexes j0) -> UniqueP.JWF j0 -> Forall UniqueP.jop_ok ops ->
+    api_job (jrun_world cfg (init_jworld j0 now) ops) = Some a ->
+    NoDup (map tr_name (j_tasks a)) /\
+    Forall (fun r => tr_name r = job_task_name (tr_hash r) (tr_retry r) /\ 0 <= tr_retry r) (j_tasks a).
+Proof. exact UniqueP.never_listed_twice. Qed.
+Print Assumptions c09_never_listed_twice.
+
+Example c09_unique_nonvacuous :
+  NoDup (j_indexes ex_hist_job) /\ UniqueP.JWF ex_hist_job /\ Forall UniqueP.jop_ok (ex_hist_ops1 ++ ex_hist_ops2).
+Proof.
+  split; [repeat constructor; intros []|]. split; [split; constructor|]. repeat constructor.
+Qed.
